@@ -11,6 +11,7 @@ PROP = {
              "window is full or the new one empty, or >=2 groups of one remedy are active in one window (sequential unit); >=2 "
              "counters with >=1 rejection (isolation unit); a burst that is partly admitted (burst unit); distinct = canonical JSON of the case"),
     "assumptions": [
+        "unit TestThrottlingLoadedFromFile: the generated remedy is written to a policies.yaml with an allocation table of 1-14 groups, loaded by the real policies accessor (config.BuildInitialFromFile: read, validate, log, persist, register - the proxy's admin API answered by a stand-in) and driven through runner.DispatchOnRequest with what the accessor hands out; requests favour the last groups of the table; judged by the same per-window, per-group reference",
         "unit TestThrottlingBehindAccountOrchestration: the throttling remedy at the end of a remedy chain, through runner.DispatchOnRequest: the clients send no group header, the header it groups by is the token header an account_orchestration remedy in front of it puts on the request (accounts listed so that the round robin hands request i the group value of step i; what an admitted request was sent on with is read back from the action and must be that value); verdicts judged by the same per-window, per-group reference as the plugin-level units",
         "the gateway's log level (LOG_LEVEL: off in three cases of eight, else error / info / debug / trace; what is logged is thrown away, what a log statement does to build its arguments happens) is a generated part of every case of TestSequentialWindows and TestBurst: no answer may depend on it; a failing case reports its level",
         "spill-over (spillover_config.enabled) is out of scope: it changes the allowed count per window by design and is always disabled here",
@@ -28,6 +29,7 @@ PROP = {
         {"pkg": "c09", "test": "TestIsolation", "quick": 6000, "thorough": 30000, "shards": 8},
         {"pkg": "c09", "test": "TestBurst", "quick": 16000, "thorough": 30000, "shards": 8},
         {"pkg": "c09", "test": "TestThrottlingBehindAccountOrchestration", "quick": 1500, "thorough": 20000, "shards": 8},
+        {"pkg": "c09", "test": "TestThrottlingLoadedFromFile", "quick": 600, "thorough": 8000, "shards": 8},
         {"pkg": "c09", "test": "TestWitnessBoundaryInstant", "kind": "plain"},
         {"pkg": "c09", "test": "TestRegressionMetricsReadAfterResize", "kind": "plain"},
     ],
